@@ -1,14 +1,12 @@
-"""C14 known findings — minimal stand-alone reproducers on the unchanged nessai tree.
+"""C14 known finding — minimal stand-alone reproducer on the unchanged nessai tree.
 
     /venv/bin/python corpus/C14/repro_findings.py
 
-(a) a user pool whose size nessai cannot determine (no `_processes` / `_actor_pool`) makes `Model.configure_pool` set
-    `allow_vectorised = False`; `batch_evaluate_log_likelihood` then never evaluates `Model.vectorised_likelihood`, whose
-    probe draws ten prior points from the *seeded* global NumPy generator on the first likelihood batch.  The run with that
-    pool therefore consumes 10*dims fewer random numbers than the run without a pool: same seed, different results.
-(b) the probe results (`_vectorised_likelihood`, `_vectorised_prior`, `_vectorised_prior_unit_hypercube`) are cached on the
-    Model instance: a second same-seed run that reuses the instance skips the draws and differs from the first.
-(c) `Model.likelihood_evaluations` is never reset: the second run reports the cumulative count.
+A user pool whose size nessai cannot determine (no `_processes` / `_actor_pool`, `n_pool` not given) makes
+`Model.configure_pool` set `allow_vectorised = False`; `batch_evaluate_log_likelihood` then never evaluates
+`Model.vectorised_likelihood`, whose probe draws ten prior points from the *seeded* global NumPy generator on the first
+likelihood batch.  The run with that pool therefore consumes 10*dims fewer random numbers than the run without a pool:
+same seed, different results.  Every model below is a fresh instance.
 """
 import multiprocessing
 import numpy as np
@@ -56,10 +54,7 @@ def next_uniform_after_first_batch(model, pool=None):
 if __name__ == "__main__":
     a = next_uniform_after_first_batch(M())
     b = next_uniform_after_first_batch(M(), SizelessPool())
-    print("(a) next seeded uniform, no pool          :", a)
-    print("    next seeded uniform, unknown-size pool:", b, "  <-- differs" if a != b else "")
-    m = M()
-    c1 = next_uniform_after_first_batch(m)
-    c2 = next_uniform_after_first_batch(m)
-    print("(b) same Model instance, 1st / 2nd run    :", c1, c2, "  <-- differs" if c1 != c2 else "")
-    print("(c) likelihood_evaluations after 2nd run  :", m.likelihood_evaluations, "(each run evaluated 2 points)")
+    print("next seeded uniform, no pool           :", a)
+    print("next seeded uniform, unknown-size pool:", b, "  <-- differs" if a != b else "")
+    c = next_uniform_after_first_batch(M(), multiprocessing.get_context("fork").Pool(2))
+    print("next seeded uniform, ordinary Pool(2)  :", c, "  (same as no pool)" if a == c else "  <-- differs")
